@@ -3704,8 +3704,11 @@ class Score(object):
         self.parts[index] = part
 
     def __iter__(self) -> Iterator[Part]:
+        # a fresh iterator per loop: nested or interleaved iterations over the
+        # same container must not share a cursor (iter_idx is kept for
+        # code that calls next() on the container itself)
         self.iter_idx = 0
-        return self
+        return iter(self.parts)
 
     def __next__(self) -> Part:
         if self.iter_idx == len(self.parts):
